@@ -17,6 +17,7 @@ import numpy as np
 
 from .. import gen, ref
 from . import _c02_layouts as lay
+from ._c01_defaults import defaults_case
 
 ID = "C01"
 LEVEL = "exploration"
@@ -36,7 +37,8 @@ RULE = (
     "in [-1,1] and mindist>0, KNeighbors() / k=1 with mean/median/max, Linear/Cubic with rescale on/off, ScipyGridder "
     "linear/nearest/cubic, Chains [Trend(0..2), exact], nested Chains, Vectors of exact gridders and of Chains, vector Chains "
     "ending in VectorSpline2D) and predicted at the fitted coordinates (also after the caller overwrote its own arrays); "
-    "GRID_LIKE stream: coordinates and data as 2-D arrays - a meshgrid whose border rows / columns are untouched while the interior nodes are moved "
+    "DEFAULTS stream: every estimator built with NO optional arguments and fitted without the weights argument against the same estimator with the "
+    "documented defaults spelled out (get_params() and bit-identical predictions); GRID_LIKE stream: coordinates and data as 2-D arrays - a meshgrid whose border rows / columns are untouched while the interior nodes are moved "
     "off the grid lines by 10-40 % of the spacing, true meshgrids, scattered points reshaped 2-D, 'ij'-indexed meshgrids, (1, n) / (n, 1) point lists "
     "whose end points share a coordinate, rotated and sheared grids - for every exact interpolator, Trend with an exact polynomial and "
     "Chain[Trend, Spline]; prediction at the fitted 2-D points judged as usual and compared with the prediction at the same points raveled to 1-D; "
@@ -76,8 +78,8 @@ ASSUMPTIONS = [
     "the fitted points are pairwise distinct (cases with duplicates are skipped, the statement quantifies over distinct points)",
 ]
 FLOORS = {
-    "quick": {'eval:spline_exact': 512, 'eval:vspline_exact': 156, 'eval:knn_exact': 313, 'eval:scipy_exact': 544, 'eval:chain_exact': 226, 'eval:vector_exact': 69, 'eval:trend_reproduction': 626, 'informative_kappa_ge_1e6:spline': 75, 'informative_kappa_ge_1e6:trend': 115, 'distinct_nontrivial': 1350, 'layout:coordinates:2d_fortran': 150, 'layout:coordinates:2d_transposed_view': 140, 'layout:coordinates:2d_strided': 150, 'layout:coordinates:1d_series': 250, 'layout:data:2d_fortran': 70, 'layout:data:2d_transposed_view': 80, 'layout:data:2d_strided': 80, 'layout:data:2d_negative_stride': 80, 'layout:data:1d_series': 140, 'layout:data_laid_out_differently_from_coordinates': 800, 'data_magnitude:1e+00': 683, 'data_magnitude:1e+03': 64, 'data_magnitude:1e+06': 56, 'data_magnitude:1e+09': 55, 'data_magnitude:1e+12': 48, 'data_magnitude:1e+15': 63, 'data_magnitude:1e-03': 52, 'data_magnitude:1e-06': 48, 'data_magnitude:1e-09': 55, 'data_magnitude:1e-12': 56, 'data_magnitude:1e-15': 48, 'size_class:knn:127': 1, 'size_class:knn:128': 1, 'size_class:knn:129': 1, 'size_class:knn:255': 1, 'size_class:knn:256': 1, 'size_class:knn:257': 1, 'size_class:knn:385': 1, 'size_class:knn:513': 1, 'size_class:linear:127': 1, 'size_class:linear:128': 1, 'size_class:linear:129': 1, 'size_class:linear:255': 1, 'size_class:linear:256': 1, 'size_class:linear:257': 1, 'size_class:linear:385': 1, 'size_class:linear:513': 1, 'size_class:spline:127': 1, 'size_class:spline:128': 1, 'size_class:spline:129': 1, 'size_class:spline:255': 1, 'size_class:spline:256': 1, 'size_class:spline:257': 1, 'size_class:spline:385': 1, 'size_class:spline:513': 1, 'size_class:vspline:127': 1, 'size_class:vspline:128': 1, 'size_class:vspline:129': 1, 'size_class:vspline:255': 1, 'size_class:vspline:256': 1, 'size_class:vspline:257': 1, 'size_class:vspline:385': 1, 'size_class:vspline:513': 1, 'history:error_then_fit:chain': 2, 'history:error_then_fit:cubic': 2, 'history:error_then_fit:knn': 2, 'history:error_then_fit:linear': 2, 'history:error_then_fit:spline': 2, 'history:error_then_fit:trend': 2, 'history:error_then_fit:vector': 2, 'history:error_then_fit:vspline': 2, 'history:held_instances_reconfigured': 7, 'history:reconfigure_after_use:chain': 2, 'history:reconfigure_after_use:cubic': 2, 'history:reconfigure_after_use:knn': 2, 'history:reconfigure_after_use:linear': 2, 'history:reconfigure_after_use:spline': 2, 'history:reconfigure_after_use:trend': 2, 'history:reconfigure_after_use:vector': 2, 'history:reconfigure_after_use:vspline': 2, 'history:reconfigure_before_use:chain': 2, 'history:reconfigure_before_use:cubic': 2, 'history:reconfigure_before_use:knn': 2, 'history:reconfigure_before_use:linear': 2, 'history:reconfigure_before_use:spline': 2, 'history:reconfigure_before_use:trend': 2, 'history:reconfigure_before_use:vector': 2, 'history:reconfigure_before_use:vspline': 2, 'history:refit_after_use:chain': 2, 'history:refit_after_use:cubic': 2, 'history:refit_after_use:knn': 2, 'history:refit_after_use:linear': 2, 'history:refit_after_use:spline': 2, 'history:refit_after_use:trend': 2, 'history:refit_after_use:vector': 2, 'history:refit_after_use:vspline': 2, 'history:refit_directly:chain': 2, 'history:refit_directly:cubic': 2, 'history:refit_directly:knn': 2, 'history:refit_directly:linear': 2, 'history:refit_directly:spline': 2, 'history:refit_directly:trend': 2, 'history:refit_directly:vector': 2, 'history:refit_directly:vspline': 2, 'history:refit_same_arrays_new_contents:chain': 2, 'history:refit_same_arrays_new_contents:cubic': 2, 'history:refit_same_arrays_new_contents:knn': 2, 'history:refit_same_arrays_new_contents:linear': 2, 'history:refit_same_arrays_new_contents:spline': 2, 'history:refit_same_arrays_new_contents:trend': 2, 'history:refit_same_arrays_new_contents:vector': 2, 'history:refit_same_arrays_new_contents:vspline': 2, 'history:size_change:equal': 21, 'history:size_change:larger': 28, 'history:size_change:smaller': 21, 'history:use:filter': 9, 'history:use:grid': 6, 'history:use:nothing': 7, 'history:use:predict_data': 4, 'history:use:predict_elsewhere': 8, 'history:use:score': 7, 'history:via_attribute_assignment': 10, 'history:via_set_params': 11, 'fit_raised:vspline:ValueError': 2, 'explicit_forces_at_the_data:spline:other_order': 16, 'explicit_forces_at_the_data:spline:same_order': 4, 'explicit_forces_at_the_data:vspline:other_order': 16, 'explicit_forces_at_the_data:vspline:same_order': 4, 'forces_container:list_of_arrays': 6, 'forces_container:strided_columns': 14, 'forces_container:tuple_of_2d_arrays': 6, 'forces_container:tuple_of_arrays': 6, 'forces_container:tuple_of_lists': 6, 'forces_order:chain_spline:np_unique': 2, 'forces_order:chain_spline:reversed': 2, 'forces_order:chain_spline:same_order': 2, 'forces_order:chain_spline:shuffled': 2, 'forces_order:chain_spline:sorted': 2, 'forces_order:chain_vspline:np_unique': 2, 'forces_order:chain_vspline:reversed': 2, 'forces_order:chain_vspline:same_order': 2, 'forces_order:chain_vspline:shuffled': 2, 'forces_order:chain_vspline:sorted': 2, 'forces_order:spline:np_unique': 2, 'forces_order:spline:reversed': 2, 'forces_order:spline:same_order': 2, 'forces_order:spline:shuffled': 2, 'forces_order:spline:sorted': 2, 'forces_order:vspline:np_unique': 2, 'forces_order:vspline:reversed': 2, 'forces_order:vspline:same_order': 2, 'forces_order:vspline:shuffled': 2, 'forces_order:vspline:sorted': 2, 'spelling:knn_k:int32': 1, 'spelling:knn_k:int64': 1, 'spelling:knn_k:int8': 1, 'spelling:knn_k:uint8': 1, 'spelling:scipy_rescale:bool(False)': 1, 'spelling:scipy_rescale:bool(True)': 1, 'spelling:scipy_rescale:int(False)': 1, 'spelling:scipy_rescale:int(True)': 1, 'spelling:spline_mindist:0-d array': 1, 'spelling:spline_mindist:int': 1, 'spelling:spline_mindist:np.float32': 1, 'spelling:spline_mindist:np.int64': 1, 'spelling:trend_degree:0-d array': 1, 'spelling:trend_degree:int32': 1, 'spelling:trend_degree:int64': 1, 'spelling:trend_degree:uint8': 1, 'spelling:vspline_mindist:0-d array': 1, 'spelling:vspline_mindist:int': 1, 'spelling:vspline_mindist:np.float32': 1, 'spelling:vspline_mindist:np.int64': 1, 'spelling:vspline_poisson:float32(0.5)': 1, 'spelling:vspline_poisson:int(-1)': 1, 'spelling:vspline_poisson:int(0)': 1, 'spelling:vspline_poisson:int(1)': 1, 'spelling:vspline_poisson:int64(-1)': 1, 'spelling:vspline_poisson:int64(0)': 1, 'spelling:vspline_poisson:ndarray(0.25)': 1, 'spelling:vspline_poisson:ndarray(1)': 1, 'errstate_raise:chain': 3, 'errstate_raise:forces_order': 3, 'errstate_raise:knn': 3, 'errstate_raise:scipy': 3, 'errstate_raise:spline': 3, 'errstate_raise:trend_poly': 3, 'errstate_raise:vector': 3, 'errstate_raise:vspline': 3, 'judged_inside_a_large_query:chain': 1, 'judged_inside_a_large_query:knn': 1, 'judged_inside_a_large_query:scipy': 1, 'judged_inside_a_large_query:spline': 1, 'judged_inside_a_large_query:vector': 1, 'judged_inside_a_large_query:vspline': 1, 'large_predict:chain_knn:200000': 1, 'large_predict:chain_spline:450x600': 1, 'large_predict:cubic:400x400': 1, 'large_predict:knn:131073': 1, 'large_predict:linear:200000': 1, 'large_predict:spline:450x600': 1, 'large_predict:vector_knn:400x400': 1, 'large_predict:vspline:131073': 1, 'eval:shape_independence': 51, 'grid_like:interior_jitter': 6, 'grid_like:interior_jitter:spline': 1, 'grid_like:interior_jitter:knn': 1, 'grid_like:interior_jitter:linear': 1, 'grid_like:interior_jitter:cubic': 1, 'grid_like:interior_jitter:vspline': 1, 'grid_like:interior_jitter:trend': 1, 'grid_like:interior_jitter:chain_trend_spline': 1, 'grid_like:interior_jitter:vector': 1, 'grid_like:regular': 6, 'grid_like:regular:spline': 1, 'grid_like:regular:knn': 1, 'grid_like:regular:linear': 1, 'grid_like:regular:cubic': 1, 'grid_like:regular:vspline': 1, 'grid_like:regular:trend': 1, 'grid_like:regular:chain_trend_spline': 1, 'grid_like:regular:vector': 1, 'grid_like:scattered_2d': 6, 'grid_like:scattered_2d:spline': 1, 'grid_like:scattered_2d:knn': 1, 'grid_like:scattered_2d:linear': 1, 'grid_like:scattered_2d:cubic': 1, 'grid_like:scattered_2d:vspline': 1, 'grid_like:scattered_2d:trend': 1, 'grid_like:scattered_2d:chain_trend_spline': 1, 'grid_like:scattered_2d:vector': 1, 'grid_like:ij_meshgrid': 6, 'grid_like:ij_meshgrid:spline': 1, 'grid_like:ij_meshgrid:knn': 1, 'grid_like:ij_meshgrid:linear': 1, 'grid_like:ij_meshgrid:cubic': 1, 'grid_like:ij_meshgrid:vspline': 1, 'grid_like:ij_meshgrid:trend': 1, 'grid_like:ij_meshgrid:chain_trend_spline': 1, 'grid_like:ij_meshgrid:vector': 1, 'grid_like:row_vector': 6, 'grid_like:row_vector:spline': 1, 'grid_like:row_vector:knn': 1, 'grid_like:row_vector:linear': 1, 'grid_like:row_vector:cubic': 1, 'grid_like:row_vector:vspline': 1, 'grid_like:row_vector:trend': 1, 'grid_like:row_vector:chain_trend_spline': 1, 'grid_like:row_vector:vector': 1, 'grid_like:column_vector': 6, 'grid_like:column_vector:spline': 1, 'grid_like:column_vector:knn': 1, 'grid_like:column_vector:linear': 1, 'grid_like:column_vector:cubic': 1, 'grid_like:column_vector:vspline': 1, 'grid_like:column_vector:trend': 1, 'grid_like:column_vector:chain_trend_spline': 1, 'grid_like:column_vector:vector': 1, 'grid_like:rotated': 6, 'grid_like:rotated:spline': 1, 'grid_like:rotated:knn': 1, 'grid_like:rotated:linear': 1, 'grid_like:rotated:cubic': 1, 'grid_like:rotated:vspline': 1, 'grid_like:rotated:trend': 1, 'grid_like:rotated:chain_trend_spline': 1, 'grid_like:rotated:vector': 1, 'grid_like:sheared': 6, 'grid_like:sheared:spline': 1, 'grid_like:sheared:knn': 1, 'grid_like:sheared:linear': 1, 'grid_like:sheared:cubic': 1, 'grid_like:sheared:vspline': 1, 'grid_like:sheared:trend': 1, 'grid_like:sheared:chain_trend_spline': 1, 'grid_like:sheared:vector': 1},
-    "thorough": {'eval:spline_exact': 9223, 'eval:vspline_exact': 2808, 'eval:knn_exact': 5637, 'eval:scipy_exact': 9799, 'eval:chain_exact': 4068, 'eval:vector_exact': 1252, 'eval:trend_reproduction': 11268, 'informative_kappa_ge_1e6:spline': 1500, 'informative_kappa_ge_1e6:trend': 2300, 'distinct_nontrivial': 27000, 'layout:coordinates:2d_fortran': 3000, 'layout:coordinates:2d_transposed_view': 2800, 'layout:coordinates:2d_strided': 3000, 'layout:coordinates:1d_series': 5000, 'layout:data:2d_fortran': 1400, 'layout:data:2d_transposed_view': 1600, 'layout:data:2d_strided': 1600, 'layout:data:2d_negative_stride': 1600, 'layout:data:1d_series': 2800, 'layout:data_laid_out_differently_from_coordinates': 16000, 'data_magnitude:1e+00': 12294, 'data_magnitude:1e+03': 1152, 'data_magnitude:1e+06': 1008, 'data_magnitude:1e+09': 990, 'data_magnitude:1e+12': 864, 'data_magnitude:1e+15': 1134, 'data_magnitude:1e-03': 936, 'data_magnitude:1e-06': 864, 'data_magnitude:1e-09': 990, 'data_magnitude:1e-12': 1008, 'data_magnitude:1e-15': 864, 'size_class:knn:127': 8, 'size_class:knn:128': 8, 'size_class:knn:129': 8, 'size_class:knn:255': 8, 'size_class:knn:256': 8, 'size_class:knn:257': 8, 'size_class:knn:385': 8, 'size_class:knn:513': 8, 'size_class:linear:127': 8, 'size_class:linear:128': 8, 'size_class:linear:129': 8, 'size_class:linear:255': 8, 'size_class:linear:256': 8, 'size_class:linear:257': 8, 'size_class:linear:385': 8, 'size_class:linear:513': 8, 'size_class:spline:127': 8, 'size_class:spline:128': 8, 'size_class:spline:129': 8, 'size_class:spline:255': 8, 'size_class:spline:256': 8, 'size_class:spline:257': 8, 'size_class:spline:385': 8, 'size_class:spline:513': 8, 'size_class:vspline:127': 8, 'size_class:vspline:128': 8, 'size_class:vspline:129': 8, 'size_class:vspline:255': 8, 'size_class:vspline:256': 8, 'size_class:vspline:257': 8, 'size_class:vspline:385': 8, 'size_class:vspline:513': 8, 'history:error_then_fit:chain': 32, 'history:error_then_fit:cubic': 32, 'history:error_then_fit:knn': 32, 'history:error_then_fit:linear': 32, 'history:error_then_fit:spline': 32, 'history:error_then_fit:trend': 32, 'history:error_then_fit:vector': 32, 'history:error_then_fit:vspline': 32, 'history:held_instances_reconfigured': 129, 'history:reconfigure_after_use:chain': 32, 'history:reconfigure_after_use:cubic': 32, 'history:reconfigure_after_use:knn': 32, 'history:reconfigure_after_use:linear': 32, 'history:reconfigure_after_use:spline': 32, 'history:reconfigure_after_use:trend': 32, 'history:reconfigure_after_use:vector': 32, 'history:reconfigure_after_use:vspline': 32, 'history:reconfigure_before_use:chain': 32, 'history:reconfigure_before_use:cubic': 32, 'history:reconfigure_before_use:knn': 32, 'history:reconfigure_before_use:linear': 32, 'history:reconfigure_before_use:spline': 32, 'history:reconfigure_before_use:trend': 32, 'history:reconfigure_before_use:vector': 32, 'history:reconfigure_before_use:vspline': 32, 'history:refit_after_use:chain': 32, 'history:refit_after_use:cubic': 32, 'history:refit_after_use:knn': 32, 'history:refit_after_use:linear': 32, 'history:refit_after_use:spline': 32, 'history:refit_after_use:trend': 32, 'history:refit_after_use:vector': 32, 'history:refit_after_use:vspline': 32, 'history:refit_directly:chain': 32, 'history:refit_directly:cubic': 32, 'history:refit_directly:knn': 32, 'history:refit_directly:linear': 32, 'history:refit_directly:spline': 32, 'history:refit_directly:trend': 32, 'history:refit_directly:vector': 32, 'history:refit_directly:vspline': 32, 'history:refit_same_arrays_new_contents:chain': 32, 'history:refit_same_arrays_new_contents:cubic': 32, 'history:refit_same_arrays_new_contents:knn': 32, 'history:refit_same_arrays_new_contents:linear': 32, 'history:refit_same_arrays_new_contents:spline': 32, 'history:refit_same_arrays_new_contents:trend': 32, 'history:refit_same_arrays_new_contents:vector': 32, 'history:refit_same_arrays_new_contents:vspline': 32, 'history:size_change:equal': 394, 'history:size_change:larger': 513, 'history:size_change:smaller': 388, 'history:use:filter': 172, 'history:use:grid': 118, 'history:use:nothing': 129, 'history:use:predict_data': 81, 'history:use:predict_elsewhere': 145, 'history:use:score': 129, 'history:via_attribute_assignment': 183, 'history:via_set_params': 205, 'fit_raised:vspline:ValueError': 32, 'explicit_forces_at_the_data:spline:other_order': 256, 'explicit_forces_at_the_data:spline:same_order': 64, 'explicit_forces_at_the_data:vspline:other_order': 256, 'explicit_forces_at_the_data:vspline:same_order': 64, 'forces_container:list_of_arrays': 96, 'forces_container:strided_columns': 224, 'forces_container:tuple_of_2d_arrays': 96, 'forces_container:tuple_of_arrays': 96, 'forces_container:tuple_of_lists': 96, 'forces_order:chain_spline:np_unique': 32, 'forces_order:chain_spline:reversed': 32, 'forces_order:chain_spline:same_order': 32, 'forces_order:chain_spline:shuffled': 32, 'forces_order:chain_spline:sorted': 32, 'forces_order:chain_vspline:np_unique': 32, 'forces_order:chain_vspline:reversed': 32, 'forces_order:chain_vspline:same_order': 32, 'forces_order:chain_vspline:shuffled': 32, 'forces_order:chain_vspline:sorted': 32, 'forces_order:spline:np_unique': 32, 'forces_order:spline:reversed': 32, 'forces_order:spline:same_order': 32, 'forces_order:spline:shuffled': 32, 'forces_order:spline:sorted': 32, 'forces_order:vspline:np_unique': 32, 'forces_order:vspline:reversed': 32, 'forces_order:vspline:same_order': 32, 'forces_order:vspline:shuffled': 32, 'forces_order:vspline:sorted': 32, 'spelling:knn_k:int32': 16, 'spelling:knn_k:int64': 16, 'spelling:knn_k:int8': 16, 'spelling:knn_k:uint8': 16, 'spelling:scipy_rescale:bool(False)': 16, 'spelling:scipy_rescale:bool(True)': 16, 'spelling:scipy_rescale:int(False)': 16, 'spelling:scipy_rescale:int(True)': 16, 'spelling:spline_mindist:0-d array': 16, 'spelling:spline_mindist:int': 16, 'spelling:spline_mindist:np.float32': 16, 'spelling:spline_mindist:np.int64': 16, 'spelling:trend_degree:0-d array': 16, 'spelling:trend_degree:int32': 16, 'spelling:trend_degree:int64': 16, 'spelling:trend_degree:uint8': 16, 'spelling:vspline_mindist:0-d array': 16, 'spelling:vspline_mindist:int': 16, 'spelling:vspline_mindist:np.float32': 16, 'spelling:vspline_mindist:np.int64': 16, 'spelling:vspline_poisson:float32(0.5)': 16, 'spelling:vspline_poisson:int(-1)': 16, 'spelling:vspline_poisson:int(0)': 16, 'spelling:vspline_poisson:int(1)': 16, 'spelling:vspline_poisson:int64(-1)': 16, 'spelling:vspline_poisson:int64(0)': 16, 'spelling:vspline_poisson:ndarray(0.25)': 16, 'spelling:vspline_poisson:ndarray(1)': 16, 'errstate_raise:chain': 53, 'errstate_raise:forces_order': 53, 'errstate_raise:knn': 53, 'errstate_raise:scipy': 53, 'errstate_raise:spline': 53, 'errstate_raise:trend_poly': 53, 'errstate_raise:vector': 53, 'errstate_raise:vspline': 53, 'judged_inside_a_large_query:chain': 18, 'judged_inside_a_large_query:knn': 24, 'judged_inside_a_large_query:scipy': 12, 'judged_inside_a_large_query:spline': 12, 'judged_inside_a_large_query:vector': 6, 'judged_inside_a_large_query:vspline': 6, 'large_predict:knn:131073': 2, 'large_predict:knn:200000': 2, 'large_predict:knn:400x400': 2, 'large_predict:knn:450x600': 2, 'large_predict:chain_knn:131073': 2, 'large_predict:chain_knn:200000': 2, 'large_predict:chain_knn:400x400': 2, 'large_predict:chain_knn:450x600': 2, 'large_predict:vector_knn:131073': 2, 'large_predict:vector_knn:200000': 2, 'large_predict:vector_knn:400x400': 2, 'large_predict:vector_knn:450x600': 2, 'large_predict:spline:131073': 2, 'large_predict:spline:200000': 2, 'large_predict:spline:400x400': 2, 'large_predict:spline:450x600': 2, 'large_predict:vspline:131073': 2, 'large_predict:vspline:200000': 2, 'large_predict:vspline:400x400': 2, 'large_predict:vspline:450x600': 2, 'large_predict:linear:131073': 2, 'large_predict:linear:200000': 2, 'large_predict:linear:400x400': 2, 'large_predict:linear:450x600': 2, 'large_predict:cubic:131073': 2, 'large_predict:cubic:200000': 2, 'large_predict:cubic:400x400': 2, 'large_predict:cubic:450x600': 2, 'large_predict:chain_spline:131073': 2, 'large_predict:chain_spline:200000': 2, 'large_predict:chain_spline:400x400': 2, 'large_predict:chain_spline:450x600': 2, 'eval:shape_independence': 921, 'grid_like:interior_jitter': 120, 'grid_like:interior_jitter:spline': 12, 'grid_like:interior_jitter:knn': 12, 'grid_like:interior_jitter:linear': 12, 'grid_like:interior_jitter:cubic': 12, 'grid_like:interior_jitter:vspline': 12, 'grid_like:interior_jitter:trend': 12, 'grid_like:interior_jitter:chain_trend_spline': 12, 'grid_like:interior_jitter:vector': 12, 'grid_like:regular': 120, 'grid_like:regular:spline': 12, 'grid_like:regular:knn': 12, 'grid_like:regular:linear': 12, 'grid_like:regular:cubic': 12, 'grid_like:regular:vspline': 12, 'grid_like:regular:trend': 12, 'grid_like:regular:chain_trend_spline': 12, 'grid_like:regular:vector': 12, 'grid_like:scattered_2d': 120, 'grid_like:scattered_2d:spline': 12, 'grid_like:scattered_2d:knn': 12, 'grid_like:scattered_2d:linear': 12, 'grid_like:scattered_2d:cubic': 12, 'grid_like:scattered_2d:vspline': 12, 'grid_like:scattered_2d:trend': 12, 'grid_like:scattered_2d:chain_trend_spline': 12, 'grid_like:scattered_2d:vector': 12, 'grid_like:ij_meshgrid': 120, 'grid_like:ij_meshgrid:spline': 12, 'grid_like:ij_meshgrid:knn': 12, 'grid_like:ij_meshgrid:linear': 12, 'grid_like:ij_meshgrid:cubic': 12, 'grid_like:ij_meshgrid:vspline': 12, 'grid_like:ij_meshgrid:trend': 12, 'grid_like:ij_meshgrid:chain_trend_spline': 12, 'grid_like:ij_meshgrid:vector': 12, 'grid_like:row_vector': 120, 'grid_like:row_vector:spline': 12, 'grid_like:row_vector:knn': 12, 'grid_like:row_vector:linear': 12, 'grid_like:row_vector:cubic': 12, 'grid_like:row_vector:vspline': 12, 'grid_like:row_vector:trend': 12, 'grid_like:row_vector:chain_trend_spline': 12, 'grid_like:row_vector:vector': 12, 'grid_like:column_vector': 120, 'grid_like:column_vector:spline': 12, 'grid_like:column_vector:knn': 12, 'grid_like:column_vector:linear': 12, 'grid_like:column_vector:cubic': 12, 'grid_like:column_vector:vspline': 12, 'grid_like:column_vector:trend': 12, 'grid_like:column_vector:chain_trend_spline': 12, 'grid_like:column_vector:vector': 12, 'grid_like:rotated': 120, 'grid_like:rotated:spline': 12, 'grid_like:rotated:knn': 12, 'grid_like:rotated:linear': 12, 'grid_like:rotated:cubic': 12, 'grid_like:rotated:vspline': 12, 'grid_like:rotated:trend': 12, 'grid_like:rotated:chain_trend_spline': 12, 'grid_like:rotated:vector': 12, 'grid_like:sheared': 120, 'grid_like:sheared:spline': 12, 'grid_like:sheared:knn': 12, 'grid_like:sheared:linear': 12, 'grid_like:sheared:cubic': 12, 'grid_like:sheared:vspline': 12, 'grid_like:sheared:trend': 12, 'grid_like:sheared:chain_trend_spline': 12, 'grid_like:sheared:vector': 12},
+    "quick": {'eval:spline_exact': 512, 'eval:vspline_exact': 156, 'eval:knn_exact': 313, 'eval:scipy_exact': 544, 'eval:chain_exact': 226, 'eval:vector_exact': 69, 'eval:trend_reproduction': 626, 'informative_kappa_ge_1e6:spline': 75, 'informative_kappa_ge_1e6:trend': 115, 'distinct_nontrivial': 1350, 'layout:coordinates:2d_fortran': 150, 'layout:coordinates:2d_transposed_view': 140, 'layout:coordinates:2d_strided': 150, 'layout:coordinates:1d_series': 250, 'layout:data:2d_fortran': 70, 'layout:data:2d_transposed_view': 80, 'layout:data:2d_strided': 80, 'layout:data:2d_negative_stride': 80, 'layout:data:1d_series': 140, 'layout:data_laid_out_differently_from_coordinates': 800, 'data_magnitude:1e+00': 683, 'data_magnitude:1e+03': 64, 'data_magnitude:1e+06': 56, 'data_magnitude:1e+09': 55, 'data_magnitude:1e+12': 48, 'data_magnitude:1e+15': 63, 'data_magnitude:1e-03': 52, 'data_magnitude:1e-06': 48, 'data_magnitude:1e-09': 55, 'data_magnitude:1e-12': 56, 'data_magnitude:1e-15': 48, 'size_class:knn:127': 1, 'size_class:knn:128': 1, 'size_class:knn:129': 1, 'size_class:knn:255': 1, 'size_class:knn:256': 1, 'size_class:knn:257': 1, 'size_class:knn:385': 1, 'size_class:knn:513': 1, 'size_class:linear:127': 1, 'size_class:linear:128': 1, 'size_class:linear:129': 1, 'size_class:linear:255': 1, 'size_class:linear:256': 1, 'size_class:linear:257': 1, 'size_class:linear:385': 1, 'size_class:linear:513': 1, 'size_class:spline:127': 1, 'size_class:spline:128': 1, 'size_class:spline:129': 1, 'size_class:spline:255': 1, 'size_class:spline:256': 1, 'size_class:spline:257': 1, 'size_class:spline:385': 1, 'size_class:spline:513': 1, 'size_class:vspline:127': 1, 'size_class:vspline:128': 1, 'size_class:vspline:129': 1, 'size_class:vspline:255': 1, 'size_class:vspline:256': 1, 'size_class:vspline:257': 1, 'size_class:vspline:385': 1, 'size_class:vspline:513': 1, 'history:error_then_fit:chain': 2, 'history:error_then_fit:cubic': 2, 'history:error_then_fit:knn': 2, 'history:error_then_fit:linear': 2, 'history:error_then_fit:spline': 2, 'history:error_then_fit:trend': 2, 'history:error_then_fit:vector': 2, 'history:error_then_fit:vspline': 2, 'history:held_instances_reconfigured': 7, 'history:reconfigure_after_use:chain': 2, 'history:reconfigure_after_use:cubic': 2, 'history:reconfigure_after_use:knn': 2, 'history:reconfigure_after_use:linear': 2, 'history:reconfigure_after_use:spline': 2, 'history:reconfigure_after_use:trend': 2, 'history:reconfigure_after_use:vector': 2, 'history:reconfigure_after_use:vspline': 2, 'history:reconfigure_before_use:chain': 2, 'history:reconfigure_before_use:cubic': 2, 'history:reconfigure_before_use:knn': 2, 'history:reconfigure_before_use:linear': 2, 'history:reconfigure_before_use:spline': 2, 'history:reconfigure_before_use:trend': 2, 'history:reconfigure_before_use:vector': 2, 'history:reconfigure_before_use:vspline': 2, 'history:refit_after_use:chain': 2, 'history:refit_after_use:cubic': 2, 'history:refit_after_use:knn': 2, 'history:refit_after_use:linear': 2, 'history:refit_after_use:spline': 2, 'history:refit_after_use:trend': 2, 'history:refit_after_use:vector': 2, 'history:refit_after_use:vspline': 2, 'history:refit_directly:chain': 2, 'history:refit_directly:cubic': 2, 'history:refit_directly:knn': 2, 'history:refit_directly:linear': 2, 'history:refit_directly:spline': 2, 'history:refit_directly:trend': 2, 'history:refit_directly:vector': 2, 'history:refit_directly:vspline': 2, 'history:refit_same_arrays_new_contents:chain': 2, 'history:refit_same_arrays_new_contents:cubic': 2, 'history:refit_same_arrays_new_contents:knn': 2, 'history:refit_same_arrays_new_contents:linear': 2, 'history:refit_same_arrays_new_contents:spline': 2, 'history:refit_same_arrays_new_contents:trend': 2, 'history:refit_same_arrays_new_contents:vector': 2, 'history:refit_same_arrays_new_contents:vspline': 2, 'history:size_change:equal': 21, 'history:size_change:larger': 28, 'history:size_change:smaller': 21, 'history:use:filter': 9, 'history:use:grid': 6, 'history:use:nothing': 7, 'history:use:predict_data': 4, 'history:use:predict_elsewhere': 8, 'history:use:score': 7, 'history:via_attribute_assignment': 10, 'history:via_set_params': 11, 'fit_raised:vspline:ValueError': 2, 'explicit_forces_at_the_data:spline:other_order': 16, 'explicit_forces_at_the_data:spline:same_order': 4, 'explicit_forces_at_the_data:vspline:other_order': 16, 'explicit_forces_at_the_data:vspline:same_order': 4, 'forces_container:list_of_arrays': 6, 'forces_container:strided_columns': 14, 'forces_container:tuple_of_2d_arrays': 6, 'forces_container:tuple_of_arrays': 6, 'forces_container:tuple_of_lists': 6, 'forces_order:chain_spline:np_unique': 2, 'forces_order:chain_spline:reversed': 2, 'forces_order:chain_spline:same_order': 2, 'forces_order:chain_spline:shuffled': 2, 'forces_order:chain_spline:sorted': 2, 'forces_order:chain_vspline:np_unique': 2, 'forces_order:chain_vspline:reversed': 2, 'forces_order:chain_vspline:same_order': 2, 'forces_order:chain_vspline:shuffled': 2, 'forces_order:chain_vspline:sorted': 2, 'forces_order:spline:np_unique': 2, 'forces_order:spline:reversed': 2, 'forces_order:spline:same_order': 2, 'forces_order:spline:shuffled': 2, 'forces_order:spline:sorted': 2, 'forces_order:vspline:np_unique': 2, 'forces_order:vspline:reversed': 2, 'forces_order:vspline:same_order': 2, 'forces_order:vspline:shuffled': 2, 'forces_order:vspline:sorted': 2, 'spelling:knn_k:int32': 1, 'spelling:knn_k:int64': 1, 'spelling:knn_k:int8': 1, 'spelling:knn_k:uint8': 1, 'spelling:scipy_rescale:bool(False)': 1, 'spelling:scipy_rescale:bool(True)': 1, 'spelling:scipy_rescale:int(False)': 1, 'spelling:scipy_rescale:int(True)': 1, 'spelling:spline_mindist:0-d array': 1, 'spelling:spline_mindist:int': 1, 'spelling:spline_mindist:np.float32': 1, 'spelling:spline_mindist:np.int64': 1, 'spelling:trend_degree:0-d array': 1, 'spelling:trend_degree:int32': 1, 'spelling:trend_degree:int64': 1, 'spelling:trend_degree:uint8': 1, 'spelling:vspline_mindist:0-d array': 1, 'spelling:vspline_mindist:int': 1, 'spelling:vspline_mindist:np.float32': 1, 'spelling:vspline_mindist:np.int64': 1, 'spelling:vspline_poisson:float32(0.5)': 1, 'spelling:vspline_poisson:int(-1)': 1, 'spelling:vspline_poisson:int(0)': 1, 'spelling:vspline_poisson:int(1)': 1, 'spelling:vspline_poisson:int64(-1)': 1, 'spelling:vspline_poisson:int64(0)': 1, 'spelling:vspline_poisson:ndarray(0.25)': 1, 'spelling:vspline_poisson:ndarray(1)': 1, 'errstate_raise:chain': 3, 'errstate_raise:forces_order': 3, 'errstate_raise:knn': 3, 'errstate_raise:scipy': 3, 'errstate_raise:spline': 3, 'errstate_raise:trend_poly': 3, 'errstate_raise:vector': 3, 'errstate_raise:vspline': 3, 'judged_inside_a_large_query:chain': 1, 'judged_inside_a_large_query:knn': 1, 'judged_inside_a_large_query:scipy': 1, 'judged_inside_a_large_query:spline': 1, 'judged_inside_a_large_query:vector': 1, 'judged_inside_a_large_query:vspline': 1, 'large_predict:chain_knn:200000': 1, 'large_predict:chain_spline:450x600': 1, 'large_predict:cubic:400x400': 1, 'large_predict:knn:131073': 1, 'large_predict:linear:200000': 1, 'large_predict:spline:450x600': 1, 'large_predict:vector_knn:400x400': 1, 'large_predict:vspline:131073': 1, 'eval:shape_independence': 51, 'grid_like:interior_jitter': 6, 'grid_like:interior_jitter:spline': 1, 'grid_like:interior_jitter:knn': 1, 'grid_like:interior_jitter:linear': 1, 'grid_like:interior_jitter:cubic': 1, 'grid_like:interior_jitter:vspline': 1, 'grid_like:interior_jitter:trend': 1, 'grid_like:interior_jitter:chain_trend_spline': 1, 'grid_like:interior_jitter:vector': 1, 'grid_like:regular': 6, 'grid_like:regular:spline': 1, 'grid_like:regular:knn': 1, 'grid_like:regular:linear': 1, 'grid_like:regular:cubic': 1, 'grid_like:regular:vspline': 1, 'grid_like:regular:trend': 1, 'grid_like:regular:chain_trend_spline': 1, 'grid_like:regular:vector': 1, 'grid_like:scattered_2d': 6, 'grid_like:scattered_2d:spline': 1, 'grid_like:scattered_2d:knn': 1, 'grid_like:scattered_2d:linear': 1, 'grid_like:scattered_2d:cubic': 1, 'grid_like:scattered_2d:vspline': 1, 'grid_like:scattered_2d:trend': 1, 'grid_like:scattered_2d:chain_trend_spline': 1, 'grid_like:scattered_2d:vector': 1, 'grid_like:ij_meshgrid': 6, 'grid_like:ij_meshgrid:spline': 1, 'grid_like:ij_meshgrid:knn': 1, 'grid_like:ij_meshgrid:linear': 1, 'grid_like:ij_meshgrid:cubic': 1, 'grid_like:ij_meshgrid:vspline': 1, 'grid_like:ij_meshgrid:trend': 1, 'grid_like:ij_meshgrid:chain_trend_spline': 1, 'grid_like:ij_meshgrid:vector': 1, 'grid_like:row_vector': 6, 'grid_like:row_vector:spline': 1, 'grid_like:row_vector:knn': 1, 'grid_like:row_vector:linear': 1, 'grid_like:row_vector:cubic': 1, 'grid_like:row_vector:vspline': 1, 'grid_like:row_vector:trend': 1, 'grid_like:row_vector:chain_trend_spline': 1, 'grid_like:row_vector:vector': 1, 'grid_like:column_vector': 6, 'grid_like:column_vector:spline': 1, 'grid_like:column_vector:knn': 1, 'grid_like:column_vector:linear': 1, 'grid_like:column_vector:cubic': 1, 'grid_like:column_vector:vspline': 1, 'grid_like:column_vector:trend': 1, 'grid_like:column_vector:chain_trend_spline': 1, 'grid_like:column_vector:vector': 1, 'grid_like:rotated': 6, 'grid_like:rotated:spline': 1, 'grid_like:rotated:knn': 1, 'grid_like:rotated:linear': 1, 'grid_like:rotated:cubic': 1, 'grid_like:rotated:vspline': 1, 'grid_like:rotated:trend': 1, 'grid_like:rotated:chain_trend_spline': 1, 'grid_like:rotated:vector': 1, 'grid_like:sheared': 6, 'grid_like:sheared:spline': 1, 'grid_like:sheared:knn': 1, 'grid_like:sheared:linear': 1, 'grid_like:sheared:cubic': 1, 'grid_like:sheared:vspline': 1, 'grid_like:sheared:trend': 1, 'grid_like:sheared:chain_trend_spline': 1, 'grid_like:sheared:vector': 1, 'defaults:Spline': 1, 'defaults:VectorSpline2D': 1, 'defaults:KNeighbors': 1, 'defaults:Linear': 1, 'defaults:Cubic': 1, 'defaults:ScipyGridder': 1, 'defaults:Trend': 1, 'eval:documented_defaults': 11},
+    "thorough": {'eval:spline_exact': 9223, 'eval:vspline_exact': 2808, 'eval:knn_exact': 5637, 'eval:scipy_exact': 9799, 'eval:chain_exact': 4068, 'eval:vector_exact': 1252, 'eval:trend_reproduction': 11268, 'informative_kappa_ge_1e6:spline': 1500, 'informative_kappa_ge_1e6:trend': 2300, 'distinct_nontrivial': 27000, 'layout:coordinates:2d_fortran': 3000, 'layout:coordinates:2d_transposed_view': 2800, 'layout:coordinates:2d_strided': 3000, 'layout:coordinates:1d_series': 5000, 'layout:data:2d_fortran': 1400, 'layout:data:2d_transposed_view': 1600, 'layout:data:2d_strided': 1600, 'layout:data:2d_negative_stride': 1600, 'layout:data:1d_series': 2800, 'layout:data_laid_out_differently_from_coordinates': 16000, 'data_magnitude:1e+00': 12294, 'data_magnitude:1e+03': 1152, 'data_magnitude:1e+06': 1008, 'data_magnitude:1e+09': 990, 'data_magnitude:1e+12': 864, 'data_magnitude:1e+15': 1134, 'data_magnitude:1e-03': 936, 'data_magnitude:1e-06': 864, 'data_magnitude:1e-09': 990, 'data_magnitude:1e-12': 1008, 'data_magnitude:1e-15': 864, 'size_class:knn:127': 8, 'size_class:knn:128': 8, 'size_class:knn:129': 8, 'size_class:knn:255': 8, 'size_class:knn:256': 8, 'size_class:knn:257': 8, 'size_class:knn:385': 8, 'size_class:knn:513': 8, 'size_class:linear:127': 8, 'size_class:linear:128': 8, 'size_class:linear:129': 8, 'size_class:linear:255': 8, 'size_class:linear:256': 8, 'size_class:linear:257': 8, 'size_class:linear:385': 8, 'size_class:linear:513': 8, 'size_class:spline:127': 8, 'size_class:spline:128': 8, 'size_class:spline:129': 8, 'size_class:spline:255': 8, 'size_class:spline:256': 8, 'size_class:spline:257': 8, 'size_class:spline:385': 8, 'size_class:spline:513': 8, 'size_class:vspline:127': 8, 'size_class:vspline:128': 8, 'size_class:vspline:129': 8, 'size_class:vspline:255': 8, 'size_class:vspline:256': 8, 'size_class:vspline:257': 8, 'size_class:vspline:385': 8, 'size_class:vspline:513': 8, 'history:error_then_fit:chain': 32, 'history:error_then_fit:cubic': 32, 'history:error_then_fit:knn': 32, 'history:error_then_fit:linear': 32, 'history:error_then_fit:spline': 32, 'history:error_then_fit:trend': 32, 'history:error_then_fit:vector': 32, 'history:error_then_fit:vspline': 32, 'history:held_instances_reconfigured': 129, 'history:reconfigure_after_use:chain': 32, 'history:reconfigure_after_use:cubic': 32, 'history:reconfigure_after_use:knn': 32, 'history:reconfigure_after_use:linear': 32, 'history:reconfigure_after_use:spline': 32, 'history:reconfigure_after_use:trend': 32, 'history:reconfigure_after_use:vector': 32, 'history:reconfigure_after_use:vspline': 32, 'history:reconfigure_before_use:chain': 32, 'history:reconfigure_before_use:cubic': 32, 'history:reconfigure_before_use:knn': 32, 'history:reconfigure_before_use:linear': 32, 'history:reconfigure_before_use:spline': 32, 'history:reconfigure_before_use:trend': 32, 'history:reconfigure_before_use:vector': 32, 'history:reconfigure_before_use:vspline': 32, 'history:refit_after_use:chain': 32, 'history:refit_after_use:cubic': 32, 'history:refit_after_use:knn': 32, 'history:refit_after_use:linear': 32, 'history:refit_after_use:spline': 32, 'history:refit_after_use:trend': 32, 'history:refit_after_use:vector': 32, 'history:refit_after_use:vspline': 32, 'history:refit_directly:chain': 32, 'history:refit_directly:cubic': 32, 'history:refit_directly:knn': 32, 'history:refit_directly:linear': 32, 'history:refit_directly:spline': 32, 'history:refit_directly:trend': 32, 'history:refit_directly:vector': 32, 'history:refit_directly:vspline': 32, 'history:refit_same_arrays_new_contents:chain': 32, 'history:refit_same_arrays_new_contents:cubic': 32, 'history:refit_same_arrays_new_contents:knn': 32, 'history:refit_same_arrays_new_contents:linear': 32, 'history:refit_same_arrays_new_contents:spline': 32, 'history:refit_same_arrays_new_contents:trend': 32, 'history:refit_same_arrays_new_contents:vector': 32, 'history:refit_same_arrays_new_contents:vspline': 32, 'history:size_change:equal': 394, 'history:size_change:larger': 513, 'history:size_change:smaller': 388, 'history:use:filter': 172, 'history:use:grid': 118, 'history:use:nothing': 129, 'history:use:predict_data': 81, 'history:use:predict_elsewhere': 145, 'history:use:score': 129, 'history:via_attribute_assignment': 183, 'history:via_set_params': 205, 'fit_raised:vspline:ValueError': 32, 'explicit_forces_at_the_data:spline:other_order': 256, 'explicit_forces_at_the_data:spline:same_order': 64, 'explicit_forces_at_the_data:vspline:other_order': 256, 'explicit_forces_at_the_data:vspline:same_order': 64, 'forces_container:list_of_arrays': 96, 'forces_container:strided_columns': 224, 'forces_container:tuple_of_2d_arrays': 96, 'forces_container:tuple_of_arrays': 96, 'forces_container:tuple_of_lists': 96, 'forces_order:chain_spline:np_unique': 32, 'forces_order:chain_spline:reversed': 32, 'forces_order:chain_spline:same_order': 32, 'forces_order:chain_spline:shuffled': 32, 'forces_order:chain_spline:sorted': 32, 'forces_order:chain_vspline:np_unique': 32, 'forces_order:chain_vspline:reversed': 32, 'forces_order:chain_vspline:same_order': 32, 'forces_order:chain_vspline:shuffled': 32, 'forces_order:chain_vspline:sorted': 32, 'forces_order:spline:np_unique': 32, 'forces_order:spline:reversed': 32, 'forces_order:spline:same_order': 32, 'forces_order:spline:shuffled': 32, 'forces_order:spline:sorted': 32, 'forces_order:vspline:np_unique': 32, 'forces_order:vspline:reversed': 32, 'forces_order:vspline:same_order': 32, 'forces_order:vspline:shuffled': 32, 'forces_order:vspline:sorted': 32, 'spelling:knn_k:int32': 16, 'spelling:knn_k:int64': 16, 'spelling:knn_k:int8': 16, 'spelling:knn_k:uint8': 16, 'spelling:scipy_rescale:bool(False)': 16, 'spelling:scipy_rescale:bool(True)': 16, 'spelling:scipy_rescale:int(False)': 16, 'spelling:scipy_rescale:int(True)': 16, 'spelling:spline_mindist:0-d array': 16, 'spelling:spline_mindist:int': 16, 'spelling:spline_mindist:np.float32': 16, 'spelling:spline_mindist:np.int64': 16, 'spelling:trend_degree:0-d array': 16, 'spelling:trend_degree:int32': 16, 'spelling:trend_degree:int64': 16, 'spelling:trend_degree:uint8': 16, 'spelling:vspline_mindist:0-d array': 16, 'spelling:vspline_mindist:int': 16, 'spelling:vspline_mindist:np.float32': 16, 'spelling:vspline_mindist:np.int64': 16, 'spelling:vspline_poisson:float32(0.5)': 16, 'spelling:vspline_poisson:int(-1)': 16, 'spelling:vspline_poisson:int(0)': 16, 'spelling:vspline_poisson:int(1)': 16, 'spelling:vspline_poisson:int64(-1)': 16, 'spelling:vspline_poisson:int64(0)': 16, 'spelling:vspline_poisson:ndarray(0.25)': 16, 'spelling:vspline_poisson:ndarray(1)': 16, 'errstate_raise:chain': 53, 'errstate_raise:forces_order': 53, 'errstate_raise:knn': 53, 'errstate_raise:scipy': 53, 'errstate_raise:spline': 53, 'errstate_raise:trend_poly': 53, 'errstate_raise:vector': 53, 'errstate_raise:vspline': 53, 'judged_inside_a_large_query:chain': 18, 'judged_inside_a_large_query:knn': 24, 'judged_inside_a_large_query:scipy': 12, 'judged_inside_a_large_query:spline': 12, 'judged_inside_a_large_query:vector': 6, 'judged_inside_a_large_query:vspline': 6, 'large_predict:knn:131073': 2, 'large_predict:knn:200000': 2, 'large_predict:knn:400x400': 2, 'large_predict:knn:450x600': 2, 'large_predict:chain_knn:131073': 2, 'large_predict:chain_knn:200000': 2, 'large_predict:chain_knn:400x400': 2, 'large_predict:chain_knn:450x600': 2, 'large_predict:vector_knn:131073': 2, 'large_predict:vector_knn:200000': 2, 'large_predict:vector_knn:400x400': 2, 'large_predict:vector_knn:450x600': 2, 'large_predict:spline:131073': 2, 'large_predict:spline:200000': 2, 'large_predict:spline:400x400': 2, 'large_predict:spline:450x600': 2, 'large_predict:vspline:131073': 2, 'large_predict:vspline:200000': 2, 'large_predict:vspline:400x400': 2, 'large_predict:vspline:450x600': 2, 'large_predict:linear:131073': 2, 'large_predict:linear:200000': 2, 'large_predict:linear:400x400': 2, 'large_predict:linear:450x600': 2, 'large_predict:cubic:131073': 2, 'large_predict:cubic:200000': 2, 'large_predict:cubic:400x400': 2, 'large_predict:cubic:450x600': 2, 'large_predict:chain_spline:131073': 2, 'large_predict:chain_spline:200000': 2, 'large_predict:chain_spline:400x400': 2, 'large_predict:chain_spline:450x600': 2, 'eval:shape_independence': 921, 'grid_like:interior_jitter': 120, 'grid_like:interior_jitter:spline': 12, 'grid_like:interior_jitter:knn': 12, 'grid_like:interior_jitter:linear': 12, 'grid_like:interior_jitter:cubic': 12, 'grid_like:interior_jitter:vspline': 12, 'grid_like:interior_jitter:trend': 12, 'grid_like:interior_jitter:chain_trend_spline': 12, 'grid_like:interior_jitter:vector': 12, 'grid_like:regular': 120, 'grid_like:regular:spline': 12, 'grid_like:regular:knn': 12, 'grid_like:regular:linear': 12, 'grid_like:regular:cubic': 12, 'grid_like:regular:vspline': 12, 'grid_like:regular:trend': 12, 'grid_like:regular:chain_trend_spline': 12, 'grid_like:regular:vector': 12, 'grid_like:scattered_2d': 120, 'grid_like:scattered_2d:spline': 12, 'grid_like:scattered_2d:knn': 12, 'grid_like:scattered_2d:linear': 12, 'grid_like:scattered_2d:cubic': 12, 'grid_like:scattered_2d:vspline': 12, 'grid_like:scattered_2d:trend': 12, 'grid_like:scattered_2d:chain_trend_spline': 12, 'grid_like:scattered_2d:vector': 12, 'grid_like:ij_meshgrid': 120, 'grid_like:ij_meshgrid:spline': 12, 'grid_like:ij_meshgrid:knn': 12, 'grid_like:ij_meshgrid:linear': 12, 'grid_like:ij_meshgrid:cubic': 12, 'grid_like:ij_meshgrid:vspline': 12, 'grid_like:ij_meshgrid:trend': 12, 'grid_like:ij_meshgrid:chain_trend_spline': 12, 'grid_like:ij_meshgrid:vector': 12, 'grid_like:row_vector': 120, 'grid_like:row_vector:spline': 12, 'grid_like:row_vector:knn': 12, 'grid_like:row_vector:linear': 12, 'grid_like:row_vector:cubic': 12, 'grid_like:row_vector:vspline': 12, 'grid_like:row_vector:trend': 12, 'grid_like:row_vector:chain_trend_spline': 12, 'grid_like:row_vector:vector': 12, 'grid_like:column_vector': 120, 'grid_like:column_vector:spline': 12, 'grid_like:column_vector:knn': 12, 'grid_like:column_vector:linear': 12, 'grid_like:column_vector:cubic': 12, 'grid_like:column_vector:vspline': 12, 'grid_like:column_vector:trend': 12, 'grid_like:column_vector:chain_trend_spline': 12, 'grid_like:column_vector:vector': 12, 'grid_like:rotated': 120, 'grid_like:rotated:spline': 12, 'grid_like:rotated:knn': 12, 'grid_like:rotated:linear': 12, 'grid_like:rotated:cubic': 12, 'grid_like:rotated:vspline': 12, 'grid_like:rotated:trend': 12, 'grid_like:rotated:chain_trend_spline': 12, 'grid_like:rotated:vector': 12, 'grid_like:sheared': 120, 'grid_like:sheared:spline': 12, 'grid_like:sheared:knn': 12, 'grid_like:sheared:linear': 12, 'grid_like:sheared:cubic': 12, 'grid_like:sheared:vspline': 12, 'grid_like:sheared:trend': 12, 'grid_like:sheared:chain_trend_spline': 12, 'grid_like:sheared:vector': 12, 'defaults:Spline': 16, 'defaults:VectorSpline2D': 16, 'defaults:KNeighbors': 16, 'defaults:Linear': 16, 'defaults:Cubic': 16, 'defaults:ScipyGridder': 16, 'defaults:Trend': 16, 'eval:documented_defaults': 112},
 }
 JOBS = {"quick": 1, "thorough": 16}
 CASE_TIMEOUT_S = 300
@@ -85,8 +87,8 @@ CASE_TIMEOUT_S = 300
 
 def plan(tier):
     if tier == "quick":
-        return collections.OrderedDict(spline=400, vspline=130, knn=150, scipy=200, chain=220, vector=90, trend_poly=300, sizes=64, history=288, forces_order=100, spellings=96, large_predict=8, errstate=72, grid_like=128)
-    return collections.OrderedDict(spline=8000, vspline=2600, knn=3000, scipy=4000, chain=4400, vector=1800, trend_poly=6000, sizes=640, history=5760, forces_order=2000, spellings=1920, large_predict=160, errstate=1440, grid_like=2560)
+        return collections.OrderedDict(spline=400, vspline=130, knn=150, scipy=200, chain=220, vector=90, trend_poly=300, sizes=64, history=288, forces_order=100, spellings=96, large_predict=8, errstate=72, grid_like=128, defaults=28)
+    return collections.OrderedDict(spline=8000, vspline=2600, knn=3000, scipy=4000, chain=4400, vector=1800, trend_poly=6000, sizes=640, history=5760, forces_order=2000, spellings=1920, large_predict=160, errstate=1440, grid_like=2560, defaults=280)
 
 
 # ----------------------------------------------------------------------
@@ -780,19 +782,19 @@ def install(tap, run):
             return real_tap.method(cls, name, post=calm(post), pre=calm(pre), **kwargs)
 
     tap = _CalmTap()
-    tap.method(verde.Spline, "fit", post=post_spline_fit)
+    tap.method(verde.Spline, "fit", post=post_spline_fit, documented={"weights": None})
     tap.method(verde.Spline, "predict", post=lambda ev: judge_green(ev, "spline_exact"))
-    tap.method(verde.VectorSpline2D, "fit", post=post_vspline_fit, pre=pre_vspline_fit)
+    tap.method(verde.VectorSpline2D, "fit", post=post_vspline_fit, pre=pre_vspline_fit, documented={"weights": None})
     tap.method(verde.VectorSpline2D, "predict", post=lambda ev: judge_green(ev, "vspline_exact"))
-    tap.method(verde.KNeighbors, "fit", post=post_knn_fit)
+    tap.method(verde.KNeighbors, "fit", post=post_knn_fit, documented={"weights": None})
     tap.method(verde.KNeighbors, "predict", post=post_knn_predict)
-    tap.method(_BaseScipyGridder, "fit", post=post_scipy_fit)
+    tap.method(_BaseScipyGridder, "fit", post=post_scipy_fit, documented={"weights": None})
     tap.method(_BaseScipyGridder, "predict", post=post_scipy_predict)
-    tap.method(verde.Trend, "fit", post=post_trend_fit)
+    tap.method(verde.Trend, "fit", post=post_trend_fit, documented={"weights": None})
     tap.method(verde.Trend, "predict", post=post_trend_predict)
-    tap.method(verde.Chain, "fit", post=post_chain_fit)
+    tap.method(verde.Chain, "fit", post=post_chain_fit, documented={"weights": None})
     tap.method(verde.Chain, "predict", post=post_chain_predict)
-    tap.method(verde.Vector, "fit", post=post_vector_fit)
+    tap.method(verde.Vector, "fit", post=post_vector_fit, documented={"weights": None})
     tap.method(verde.Vector, "predict", post=post_vector_predict)
 
 
@@ -1655,6 +1657,8 @@ def run_case(run, tap, stream, index, rng):
         run.sample("trend_poly", {"degree": degree, "polynomial_degree": deg_p, "coefficients": coefs, "n": n, "easting": east, "northing": north,
                                   "data": data, "query_easting": qe, "query_northing": qn, "prediction": np.asarray(pred),
                                   "kappa_V": (_lookup(est).info or {}).get("kappa")})
+    elif stream == "defaults":
+        defaults_case(run, rng, verde, index, ("Spline", "VectorSpline2D", "KNeighbors", "Linear", "Cubic", "ScipyGridder", "Trend"))
     elif stream == "grid_like":
         _grid_like(run, rng, verde, index)
     elif stream == "large_predict":
